@@ -252,6 +252,27 @@ func init() {
 			}
 			return nil
 		},
+		// sync.Pool: a LIFO free list per pool (items are never dropped - one
+		// of the behaviours the real pool may show; a pool with a New
+		// function is not modelled)
+		"(*sync.Pool).Put": func(ex *Exec, g *Goroutine, cs *callSite, args []Value) Value {
+			k := ex.ptrKey(args[0])
+			if i, ok := args[1].(Iface); ok && i.T == nil {
+				return nil
+			}
+			ex.pools[k] = append(ex.pools[k], args[1])
+			return nil
+		},
+		"(*sync.Pool).Get": func(ex *Exec, g *Goroutine, cs *callSite, args []Value) Value {
+			k := ex.ptrKey(args[0])
+			l := ex.pools[k]
+			if len(l) == 0 {
+				return Iface{}
+			}
+			v := l[len(l)-1]
+			ex.pools[k] = l[:len(l)-1]
+			return v
+		},
 		"(*sync.Once).Do": func(ex *Exec, g *Goroutine, cs *callSite, args []Value) Value {
 			k := ex.ptrKey(args[0])
 			o, ok := ex.onces[k]
